@@ -74,8 +74,8 @@ def main(lean_dir):
         apats = ['a%d' % i for i in range(len(decs))]
         if f['today']:
             apats = ['t'] + apats
-            binds = 'let today ← Wire.decDate t; ' + binds
-        call = f['lean'] + (' today' if f['today'] else '') + ''.join(' ' + n for n in names)
+            binds = 'let today__ ← Wire.decDate t; ' + binds
+        call = f['lean'] + (' today__' if f['today'] else '') + ''.join(' ' + n for n in names)
         line = '  | "%s" => match args with\n    | [%s] => (do %spure (Wire.respondWith %s (%s)) : Option String).getD "badargs"\n    | _ => "badargs"' % (
             fname, ', '.join(apats), binds, enc, call)
         by_mod.setdefault(modname, []).append(line)
